@@ -99,7 +99,7 @@ TIES = {"C03": ["Serif.Tie.Typing", "Serif.Tie.Assign"], "C04": ["Serif.Tie.Typi
         "C09": ["Serif.Tie.Join"], "C10": ["Serif.Tie.Join"], "C11": ["Serif.Tie.Join"],
         "C12": ["Serif.Tie.Group"], "C13": ["Serif.Tie.Group"], "C15": ["Serif.Tie.AliasTracker"], "C01": ["Serif.Tie.AliasTracker"],
         "C20": ["Serif.Tie.Repr"], "C05": ["Serif.Tie.Vec"], "C06": ["Serif.Tie.Vec"],
-        "C02": ["Serif.Tie.Tab"]}
+        "C02": ["Serif.Tie.Tab"], "C14": ["Serif.Tie.Sort"]}
 
 
 def build_ties(pid):
